@@ -384,6 +384,69 @@ class Overlaps(Contract):
 
 
 # ---------------------------------------------------------------------------------------------------
+class SNNVec:
+    """result of Emulsion.get_neighbor_distances for >= 2 droplets: entry i = distance to the droplet whose CENTRE is nearest (Euclid)"""
+
+    def __init__(self, run, view, n, sub):
+        c = next(run.counter)
+        self.run, self.view, self.n, self.sub = run, view, to_z3(n), sub
+        self.nn = z3.Function(f"nearest_centre!{c}", I, I)
+        i, j = z3.Ints("ni nj")
+        inr = lambda x: z3.And(x >= 0, x < self.n)     # noqa: E731
+        run.define(z3.ForAll([i], z3.Implies(inr(i), z3.And(inr(self.nn(i)), self.nn(i) != i))), "nearest-centre neighbour (definition)")
+        run.define(z3.ForAll([i, j], z3.Implies(z3.And(inr(i), inr(j), j != i),
+                                                CD(None)(view.ref(i), view.ref(self.nn(i))) <= CD(None)(view.ref(i), view.ref(j)))),
+                   "nearest-centre neighbour (definition)")
+
+    def at(self, i):
+        i = to_z3(i)
+        return dsub(self.view, None, self.view.ref(i), self.view.ref(self.nn(i)), self.sub)
+
+    def sym_len(self, run):
+        return self.n
+
+    def sym_getitem(self, run, idx):
+        i = to_z3(idx)
+        run.oblige("index in range (neighbour distances)", z3.And(i >= 0, i < self.n), kind="implicit")
+        return self.at(i)
+
+    def sym_getattr(self, run, attr):
+        if attr in ("min", "max"):
+            def red(run2, a, k):
+                m, w = run2.fresh_real(f"nn_{attr}"), run2.fresh_int(f"nn_arg{attr}")
+                i = z3.Int("nr")
+                run2.define(z3.And(w >= 0, w < self.n, m == self.at(w)), f"{attr} of a non-empty vector is attained")
+                run2.define(z3.ForAll([i], z3.Implies(z3.And(i >= 0, i < self.n), (m <= self.at(i)) if attr == "min" else (m >= self.at(i)))),
+                            f"{attr} of a vector bounds every entry")
+                return m
+            return SNative(red, f"ndarray.{attr}")
+        from pyvc.engine import _MISSING
+        return _MISSING
+
+
+@register
+class NeighborDistancesCall(Contract):
+    """Emulsion.get_neighbor_distances at call sites of verified functions.  ASSUMED (the k-d tree query is outside the subset; the function itself
+    is covered by the bounded stand-in `neighbor-distances-and-from_random` only): for >= 2 droplets entry i is the Euclidean distance between
+    droplet i and the droplet whose centre is nearest to it - minus both radii if requested - which is in general NOT the smallest surface distance."""
+    key = f"{MOD}:Emulsion.get_neighbor_distances"
+
+    def cases(self):
+        return []
+
+    def apply(self, engine, run, fi, args, kwargs):
+        me = args[0]
+        sub = kwargs.get("subtract_radius", args[1] if len(args) > 1 else False)
+        if not isinstance(me, H.SListObj):
+            raise Undecided("get_neighbor_distances on a concrete emulsion")
+        if not run.branch(to_z3(me.length) >= 2):
+            raise Undecided("get_neighbor_distances of fewer than two droplets (empty / NaN vector)")
+        run.trust(f"ASSUMED contract:{self.key} (nearest-CENTRE neighbour by a k-d tree; bounded stand-in only)")
+        view = EmView(run, me.dim, me.cls_name, me.elems)
+        return SNNVec(run, view, me.length, sub if isinstance(sub, bool) else to_z3(sub))
+
+
+# ---------------------------------------------------------------------------------------------------
 KEY_RO = f"{MOD}:Emulsion.remove_overlapping"
 
 
@@ -525,7 +588,12 @@ class RemoveOverlapping(RemoveOverlappingBase):
         run, me, grid, md, E0, L0, heap0 = self.ctx
         g = run.ghost.get("ro")
         if g is None:
-            return [("the removal loop was executed", False)]
+            # the function returned without entering the removal loop (an early return): then nothing may have been removed - which is right
+            # only if every pair was already separated - and the remaining clauses are those of the identity ghost maps
+            g = ROGhost(run, me)
+            g.E0, g.L0 = E0, L0
+            jj = z3.Int("gj0")
+            run.define(z3.ForAll([jj], z3.And(g.idx(jj) == jj, g.inv(jj) == jj, z3.Not(g.removed(jj)))), "ghost maps of an early return (identity)")
         n = to_z3(me.length)
         view = EmView(run, case["dim"], "SphericalDroplet", me.elems)
         v0 = EmView(run, case["dim"], "SphericalDroplet", E0, heap0)
@@ -562,6 +630,17 @@ class RemoveOverlapping(RemoveOverlappingBase):
             n = rng.choice([0, 1, 2, 3, 4, 5, 6])
             yield dict(n=n, pos=[[rng.choice(lat + [7.5]) for _ in range(case["dim"])] for _ in range(n)],
                        rad=[rng.choice(radii) for _ in range(n)], min_distance=rng.choice([0.0, 0.5, -0.5, 1.0, 0.0]))
+        # strongly unequal radii: a small droplet overlaps a large one whose CENTRE is farther away than the centre of its nearest neighbour (a
+        # nearest-centre-neighbour query does not see that pair), and droplets nested inside larger ones
+        d = case["dim"]
+        pad = lambda x: [x] + [0.25] * (d - 1)      # noqa: E731
+        yield dict(n=4, pos=[pad(-2.5), pad(-1.5), pad(0.0), pad(1.05)], rad=[0.01, 0.6, 1.0, 0.01], min_distance=0.0)
+        yield dict(n=4, pos=[pad(1.05), pad(0.0), pad(-1.5), pad(-2.5)], rad=[0.01, 1.0, 0.6, 0.01], min_distance=0.0)
+        yield dict(n=3, pos=[pad(0.0), pad(0.1), pad(3.0)], rad=[2.0, 0.05, 0.9], min_distance=0.2)
+        for t in range(30 if tier == "quick" else 600):
+            n = rng.choice([3, 4, 5, 6, 8])
+            yield dict(n=n, pos=[[rng.uniform(0, 6) for _ in range(d)] for _ in range(n)],
+                       rad=[10 ** rng.uniform(-2.3, 0.3) for _ in range(n)], min_distance=rng.choice([0.0, 0.05, -0.05]))
 
     def concrete_run(self, case, inputs):
         return check_remove_overlapping(case, inputs)
